@@ -33,3 +33,15 @@ Theorem C01_completing_run_exists :
   In BSetup tr /\ In (BReport 38 false) tr /\ In BDeliver tr /\ In BShipId tr.
 Proof. exact happy_server_completes. Qed.
 Print Assumptions C01_completing_run_exists.
+
+(* the function bin/check evaluates on the implementation's observations (ConnCheck.check_C01:
+   model = implementation?, and the monitor read off the observations themselves - states from
+   the hook snapshots, the stored SHIP id from the id reports) returns no failure code on the
+   model's own observations, for every role, ids and event list: what is demanded of the
+   implementation is exactly what is proved of the model *)
+From Ship Require Import ConnCheck ConnImpl.
+Theorem C01_checker_accepts_every_model_run :
+  forall (r : role) (stored local : bytes) (es : list eventx),
+    check_C01 (model_case r stored local es) = [].
+Proof. intros r s l es. pose proof (checkers_accept_model r s l es) as H. cbv zeta in H. tauto. Qed.
+Print Assumptions C01_checker_accepts_every_model_run.
